@@ -888,3 +888,360 @@ func runC02(c *Ctx, _ []string) {
 	}
 	c.Stats["distinct_nontrivial"] = nontrivial
 }
+
+// ------------------------------------------------------------------ C08 (stream level)
+type faultWC struct {
+	data      []byte
+	calls     int
+	failAt    int  // index of the failing Write call (1-based)
+	permanent bool // every call from failAt on fails
+	hit       bool
+	closeErr  bool
+}
+
+func (s *faultWC) Write(b []byte) (int, error) {
+	s.calls++
+	if s.failAt > 0 && (s.calls == s.failAt || (s.permanent && s.calls > s.failAt)) {
+		s.hit = true
+		return 0, fmt.Errorf("sink failure (injected at call %d)", s.calls)
+	}
+	s.data = append(s.data, b...)
+	return len(b), nil
+}
+func (s *faultWC) Close() error {
+	if s.closeErr {
+		s.hit = true
+		return fmt.Errorf("sink close failure (injected)")
+	}
+	return nil
+}
+
+func guardErr(f func() error) (err error, panicked any) {
+	defer func() {
+		if r := recover(); r != nil {
+			panicked = r
+		}
+	}()
+	return f(), nil
+}
+
+func runC08(c *Ctx, _ []string) {
+	r := NewRng(c.Seed ^ 0x0808)
+	c.Stats["samples"] = []any{}
+	nontrivial := 0
+	type scen struct {
+		cfg   sCfg
+		shape string
+		size  int
+		part  []int
+	}
+	scens := []scen{
+		{sCfg{"NONE", "NONE", 1 << 20, 1, 0, 0, false}, "random", 262108, nil}, // end marker lands on the flush boundary
+		{sCfg{"NONE", "NONE", 1 << 20, 1, 0, 0, false}, "random", 700000, nil},
+		{sCfg{"LZ", "HUFFMAN", 65536, 3, 32, 0, false}, "random", 900000, []int{100000}},
+	}
+	for i := 0; i < 2*c.Scale; i++ {
+		cfg := randCfg(r, false)
+		cfg.Jobs = uint(r.Range(1, 4))
+		cfg.Block = []uint{65536, 262144, 524288}[r.Intn(3)]
+		scens = append(scens, scen{cfg, []string{"random", "exe", "mm"}[r.Intn(3)], r.Range(300000, 1500000), []int{r.Range(1000, 400000)}})
+	}
+	for si, sc := range scens {
+		dseed := uint64(si) + c.Seed
+		data := mkData(sc.shape, sc.size, dseed)
+		ref := &faultWC{}
+		if st, err := compressTo(ref, sc.cfg, data, sc.part); err != nil || st != "" {
+			continue
+		}
+		K := ref.calls
+		nontrivial++
+		desc := map[string]any{"cfg": sc.cfg.String(), "data": describe(sc.shape, sc.size, dseed), "sink_calls": K}
+		viol := func(f string, a ...any) {
+			d := map[string]any{"what": fmt.Sprintf(f, a...)}
+			for k, v := range desc {
+				d[k] = v
+			}
+			c.Violation(d)
+		}
+		// ---- sink faults: every call index, transient and permanent, plus a failing Close of the sink
+		for k := 1; k <= K+1; k++ {
+			for _, perm := range []bool{false, true} {
+				sink := &faultWC{failAt: k, permanent: perm}
+				if k == K+1 {
+					if perm {
+						continue
+					}
+					sink = &faultWC{closeErr: true}
+				}
+				c.Count("evaluations", 1)
+				c.Hist("kind", "sink-fault")
+				var results []string
+				anyErr, closeOK := false, false
+				var pnc any
+				w, err := kio.NewWriter(sink, sc.cfg.Transform, sc.cfg.Entropy, sc.cfg.Block, sc.cfg.Jobs, sc.cfg.Checksum, sc.cfg.Hint, sc.cfg.Headerless)
+				if err != nil {
+					continue
+				}
+				off := 0
+				for off < len(data) && pnc == nil {
+					n := len(data) - off
+					if sc.part != nil && sc.part[0] < n {
+						n = sc.part[0]
+					}
+					var e error
+					e, pnc = guardErr(func() error { _, e := w.Write(data[off : off+n]); return e })
+					results = append(results, "W:"+errTag(e))
+					if e != nil {
+						anyErr = true
+					}
+					off += n
+				}
+				for t := 0; t < 3 && pnc == nil; t++ {
+					var e error
+					e, pnc = guardErr(func() error { return w.Close() })
+					results = append(results, "C:"+errTag(e))
+					if e != nil {
+						anyErr = true
+					} else {
+						closeOK = true
+					}
+					if k == K+1 && t == 0 {
+						sink.closeErr = false // transient failure of the sink's Close
+					}
+				}
+				tag := fmt.Sprintf("sink fault at call %d/%d permanent=%v jobs=%d: %v", k, K, perm, sc.cfg.Jobs, results)
+				switch {
+				case pnc != nil:
+					viol("%s: PANIC escaped: %v", tag, pnc)
+				case sink.hit && !anyErr:
+					viol("%s: the sink failed but no API call returned an error", tag)
+				case closeOK:
+					res := decompressTimed(sink.data, sc.cfg, 2, nil, 0, nil, 120*time.Second)
+					if res.err != nil || !res.eof || !bytes.Equal(res.data, data) {
+						viol("%s: Close reported success but the sink holds %d bytes that do not decode to the data (err=%v)", tag, len(sink.data), res.err)
+					}
+				}
+			}
+		}
+		// ---- source faults
+		stream := ref.data
+		probe := &schedSource{data: stream}
+		rd0, _ := newReader(probe, sc.cfg, 2, nil)
+		readAll(rd0, []int{70000}, 0, 0)
+		R := probe.calls
+		desc["source_calls"] = R
+		for k := 1; k <= R; k++ {
+			for _, jobs := range []uint{1, 3} {
+				src := &schedSource{data: stream, rfail: k}
+				rd, err := newReader(src, sc.cfg, jobs, nil)
+				if err != nil {
+					continue
+				}
+				c.Count("evaluations", 1)
+				c.Hist("kind", "source-fault")
+				ch := make(chan readResult, 1)
+				go func() { ch <- readAll(rd, []int{3000 + 7*k}, 3, 0) }()
+				var res readResult
+				select {
+				case res = <-ch:
+				case <-time.After(60 * time.Second):
+					res = readResult{timeout: true}
+				}
+				tag := fmt.Sprintf("source fault at call %d/%d jobs=%d", k, R, jobs)
+				hit := src.calls >= k
+				switch {
+				case res.timeout || res.panic != nil:
+					viol("%s: timeout=%v panic=%v", tag, res.timeout, res.panic)
+				case hit && res.err == nil && !(res.eof && bytes.Equal(res.data, data)):
+					// (a failing read-ahead after the end marker was already delivered is harmless)
+					viol("%s: the source failed but Read never returned an error (eof=%v, %d bytes)", tag, res.eof, len(res.data))
+				case !isPrefix(res.data, data):
+					viol("%s: bytes returned are not a prefix of the original", tag)
+				default:
+					for _, t := range res.trail {
+						if res.err != nil && (strings.HasSuffix(t, "EOF") || strings.Contains(t, "DATA")) && k > 1 {
+							viol("%s: after the error, Read returned %s", tag, t)
+							break
+						}
+					}
+				}
+			}
+		}
+		if len(c.Stats["samples"].([]any)) < 3 {
+			c.Stats["samples"] = append(c.Stats["samples"].([]any), desc)
+		}
+	}
+	c.Stats["exhaustive"] = true
+	c.Stats["distinct_nontrivial"] = nontrivial
+}
+
+// ------------------------------------------------------------------ C17
+func runC17(c *Ctx, _ []string) {
+	r := NewRng(c.Seed ^ 0x1717)
+	c.Stats["samples"] = []any{}
+	nontrivial := 0
+	n := 120 * c.Scale
+	for i := 0; i < n; i++ {
+		cfg := randCfg(r, false)
+		cfg.Jobs = uint(r.Range(1, 4))
+		cfg.Block = []uint{1024, 2048, 4096}[r.Intn(3)]
+		B := int(cfg.Block)
+		sink := &memSink{}
+		w, err := kio.NewWriter(sink, cfg.Transform, cfg.Entropy, cfg.Block, cfg.Jobs, cfg.Checksum, 0, cfg.Headerless)
+		if err != nil {
+			continue
+		}
+		c.Count("evaluations", 1)
+		prog := []string{}
+		bad := ""
+		fail := func(f string, a ...any) {
+			if bad == "" {
+				bad = fmt.Sprintf(f, a...)
+			}
+		}
+		var data []byte
+		closed := false
+		lastW := uint64(0)
+		nops := r.Range(1, 14)
+		dr := NewRng(r.U64())
+		for k := 0; k < nops; k++ {
+			switch op := r.Intn(10); {
+			case op < 6 && !(closed && r.Intn(3) != 0):
+				var ln int
+				switch r.Intn(6) {
+				case 0:
+					ln = 0
+				case 1:
+					ln = B
+				case 2:
+					ln = B * int(cfg.Jobs)
+				default:
+					ln = r.Intn(3 * B)
+				}
+				buf := genData(dr, "text", ln)
+				before, sinkBefore := w.GetWritten(), sink.buf.Len()
+				k2, err := w.Write(buf)
+				prog = append(prog, fmt.Sprintf("Write(%d)", ln))
+				if closed {
+					if err == nil {
+						fail("Write(%d) after Close returned nil", ln)
+					}
+					if k2 != 0 || w.GetWritten() != before || sink.buf.Len() != sinkBefore {
+						fail("Write after Close had side effects (n=%d, GetWritten %d->%d, sink %d->%d)", k2, before, w.GetWritten(), sinkBefore, sink.buf.Len())
+					}
+				} else {
+					if err != nil || k2 != ln {
+						fail("Write(%d) on an open writer returned (%d, %v)", ln, k2, err)
+					}
+					data = append(data, buf...)
+				}
+			case op < 8:
+				err := w.Close()
+				prog = append(prog, "Close")
+				if err != nil {
+					fail("Close returned %v", err)
+				}
+				if !closed && uint64(sink.buf.Len()) != w.GetWritten() {
+					fail("after Close GetWritten() = %d but the sink received %d bytes", w.GetWritten(), sink.buf.Len())
+				}
+				if closed && !sink.closed {
+					fail("underlying sink not closed")
+				}
+				closed = true
+			default:
+				prog = append(prog, "GetWritten")
+			}
+			gw := w.GetWritten()
+			if gw < lastW {
+				fail("GetWritten went from %d to %d", lastW, gw)
+			}
+			lastW = gw
+		}
+		if !closed {
+			if err := w.Close(); err != nil {
+				fail("Close returned %v", err)
+			}
+			prog = append(prog, "Close")
+		}
+		if uint64(sink.buf.Len()) != w.GetWritten() {
+			fail("after Close GetWritten() = %d but the sink received %d bytes", w.GetWritten(), sink.buf.Len())
+		}
+		if len(data) > B {
+			nontrivial++
+		}
+		// reader life cycle on the produced stream
+		rd, err := newReader(stdio.NopCloser(bytes.NewReader(sink.buf.Bytes())), cfg, uint(r.Range(1, 4)), nil)
+		if err != nil {
+			fail("reader construction: %v", err)
+		} else {
+			var got []byte
+			rclosed, eof := false, false
+			lastR := uint64(0)
+			for k := 0; k < r.Range(2, 14); k++ {
+				switch op := r.Intn(10); {
+				case op < 7:
+					ln := []int{0, 1, B, B * 2, r.Intn(5 * B)}[r.Intn(5)]
+					buf := make([]byte, ln)
+					k2, err := rd.Read(buf)
+					prog = append(prog, fmt.Sprintf("Read(%d)", ln))
+					switch {
+					case rclosed:
+						if err == nil || err == stdio.EOF || k2 != 0 {
+							fail("Read after Close returned (%d, %v)", k2, err)
+						}
+					case err == stdio.EOF:
+						eof = true
+						if k2 != 0 {
+							fail("Read returned data together with EOF")
+						}
+					case err != nil:
+						fail("Read returned %v on a valid stream", err)
+					default:
+						if eof && k2 > 0 {
+							fail("Read returned data after EOF")
+						}
+						got = append(got, buf[:k2]...)
+					}
+				case op < 9:
+					if err := rd.Close(); err != nil {
+						fail("Reader.Close returned %v", err)
+					}
+					prog = append(prog, "RClose")
+					rclosed = true
+				default:
+					prog = append(prog, "GetRead")
+				}
+				gr := rd.GetRead()
+				if gr < lastR {
+					fail("GetRead went from %d to %d", lastR, gr)
+				}
+				lastR = gr
+			}
+			if !isPrefix(got, data) {
+				fail("bytes read are not a prefix of the bytes written")
+			}
+			if eof && !rclosed && !bytes.Equal(got, data) {
+				fail("EOF after %d of %d bytes", len(got), len(data))
+			}
+			if len(data) == 0 && !rclosed {
+				buf := make([]byte, 10)
+				if k2, err := rd.Read(buf); k2 != 0 || err != stdio.EOF {
+					fail("a writer closed without data must decode to empty: Read returned (%d, %v)", k2, err)
+				}
+			}
+		}
+		c.Hist("empty_stream", fmt.Sprint(len(data) == 0))
+		if bad != "" {
+			c.Violation(map[string]any{"what": bad, "cfg": cfg.String(), "program": strings.Join(prog, " ; ")})
+		}
+		if len(c.Stats["samples"].([]any)) < 3 {
+			c.Stats["samples"] = append(c.Stats["samples"].([]any), strings.Join(prog, " ; "))
+		}
+	}
+	c.Stats["distinct_nontrivial"] = nontrivial
+}
+
+func init() {
+	commands["c08"] = runC08
+	commands["c17"] = runC17
+}
